@@ -106,7 +106,7 @@ def line (strict drift : String) : String := strict ++ " ## " ++ drift
 
 def cLine (σ : CState) (extra : String := "") (real : Bool := false) : String :=
   line ("n=" ++ toString σ.cache.length ++ " " ++ tableFp σ.tk.K ++ " m=" ++ boolStr (mirrorOk σ.cache σ.tk.K))
-    (if real then extra ++ "calls=~ p=~" else extra ++ callsStr σ.tk.log ++ " p=" ++ toString σ.pending.length)
+    (if real then extra ++ "p=~" else extra ++ "p=" ++ toString σ.pending.length)
 
 def clearLogT (s : TK) : TK := { s with log := [] }
 def clearLogC (σ : CState) : CState := { σ with tk := clearLogT σ.tk }
@@ -126,7 +126,7 @@ def parseOutcome? : String → Option Outcome
   | _ => none
 
 def tLine (r : TK × CoreErr) : String :=
-  line ("e=" ++ errBit r.2 ++ " " ++ tableFp r.1.K) ("class=" ++ errStr r.2 ++ " " ++ callsStr r.1.log)
+  line (tableFp r.1.K) ("e=" ++ errBit r.2 ++ " class=" ++ errStr r.2 ++ " " ++ callsStr r.1.log)
 
 def parseAssign? (toks : List String) : Option (List (String × Bitmap)) :=
   toks.mapM fun t =>
@@ -166,7 +166,11 @@ def handle (d : DState) (line' : String) : DState × String :=
     match ttl.toNat?, mx.toNat? with
     | some t, some m => ({ d with cs := CState.init ⟨en = "1", t, m⟩, real := real = "1" }, line "ok" "")
     | _, _ => (d, "bad-op")
-  | "put" :: key :: fqdn :: qt :: ttl :: fttl :: bm :: rest =>
+  | "put" :: "0" :: _ =>
+    -- the code decided not to store this answer (observed): only time passes
+    let σ := tick d.cs
+    ({ d with cs := σ }, cLine σ "" d.real)
+  | "put" :: "1" :: key :: fqdn :: qt :: ttl :: fttl :: bm :: rest =>
     match qt.toNat?, ttl.toNat?, parseBits? bm, rest.mapM parseAns? with
     | some q, some t, some b, some ans =>
       if fttl = "-" then runC d (.put (ownerOfTok key) fqdn q t none b ans)
